@@ -94,7 +94,7 @@ const (
 	EErrNotIndexed
 	EErrOther
 	// derived effects
-	ECanon        // a call whose closure contains CASE returned (schema case transforms applied)
+	ECanon        // a call to the case-transform routine (closure has CASE and no object hook) returned
 	EDirty        // live index / settings changed since the last schema commit (set by IDX.w(live)/CFG.w, cleared by FS.write(schema))
 	ECallDelCache // a store-delete call on the cache store was made
 	ECallDelPend  // a store-delete call on the pending store was made
@@ -189,9 +189,10 @@ const (
 	TParamObj                // caller-supplied Object
 	TSchemaFields            // the descriptor map loaded from Schema.Fields
 	TWitness                 // the object a schema keeps as type witness (Schema.object)
+	TSearchFields            // derived from the result slice of a Search (load of Search.fields, appends to it)
 )
 
-const closedTags = TDecoded | TLive | TCache | TPend | TSchemaPath | TObjName | TParamObj // closed under loads
+const closedTags = TDecoded | TLive | TCache | TPend | TSchemaPath | TObjName | TParamObj | TSearchFields // closed under loads
 
 const dataTags = TSchemaPath | TObjName | TSchemaFields
 
